@@ -10,31 +10,44 @@ from stone.ir import is_nullable_type, is_struct_type, is_tag_ref, is_union_type
 from harness import c04_roundtrip as base
 from vlib import fixtures, hx, valgen
 
-API = base.API
-MODS = base.MODS
-CLIENT = fixtures.module('catgen', 'catclient')
 NS = hx.tier(2, 3)
 
 
-class Rec(CLIENT.CatClient):
-    def __init__(self, result):
-        self.calls = []
-        self.result = result
+def _record(client, call):
+    client.calls.append(call)
+    return client.result
 
-    def request(self, route, namespace, request_arg, request_binary, timeout=None):
-        self.calls.append((route, namespace, request_arg, request_binary))
-        return self.result
+
+def _rec(client_cls):
+    class Rec(client_cls):
+        def __init__(self, result):
+            self.calls = []
+            self.result = result
+
+        def request(self, route, namespace, request_arg, request_binary, timeout=None):
+            return _record(self, (route, namespace, request_arg, request_binary))
+    return Rec
+
+
+# spec key -> (ir namespace, {namespace name: generated module}, recording client class)
+SPECS = {
+    'cat': (base.API.namespaces['cat'], base.MODS, _rec(fixtures.module('catgen', 'catclient').CatClient)),
+    'cl2': (fixtures.api_for('client2').namespaces['class'], {'class': fixtures.module('cl2gen', 'class_')},
+            _rec(fixtures.module('cl2gen', 'cl2client').Cl2Client)),
+}
 
 
 def routes():
-    return ['%s:%d' % (r.name, r.version) for r in API.namespaces['cat'].routes]
+    return ['%s/%s:%d' % (k, r.name, r.version) for k in sorted(SPECS) for r in SPECS[k][0].routes]
 
 
 def _route(item):
-    name, ver = item.split(':')
-    for r in API.namespaces['cat'].routes:
+    key, rest = item.split('/')
+    name, ver = rest.split(':')
+    ns, mods, rec = SPECS[key]
+    for r in ns.routes:
         if r.name == name and r.version == int(ver):
-            return r
+            return r, ns, mods, rec
     raise KeyError(item)
 
 
@@ -44,8 +57,8 @@ B16 = base.B16
 F2 = base.F2
 
 
-@hx.harness(props=['C14'], targets=['harness.c14_client:Rec.request'], items=routes,
-            bound='every route of the catalogue (struct / inherited struct / all-optional struct / union / Void arguments, '
+@hx.harness(props=['C14'], targets=['harness.c14_client:_record'], items=routes,
+            bound='every route of the catalogue and of the client2 spec (reserved-word namespace, only later versions deprecated, alias-of-nullable field) (struct / inherited struct / all-optional struct / union / Void arguments, '
                   'versions 1-3, deprecated with and without successor, upload and download styles); argument values '
                   'symbolic (all ints, IEEE floats, strings <= %d), each optional parameter passed or omitted, required '
                   'parameters all positional or all by keyword; result of request() symbolic' % NS,
@@ -56,12 +69,12 @@ def call(i: I8, s: S4, b: B16, f: F2, by_keyword: bool, res: int) -> bool:
     pre: all(len(x) <= NS for x in s)
     post: _
     """
-    r = _route(hx.ITEM)
-    cat = MODS['cat']
+    r, ns, MODS, Rec = _route(hx.ITEM)
+    cat = MODS[ns.name]
     pool = hx.Pool(ints=i, strs=s, bools=b, floats=f)
     gen = valgen.Gen(MODS, pool, max_list=1)
     arg_dt = r.arg_data_type
-    method = getattr(Rec, 'cat_' + fmt_func(r.name, version=r.version))
+    method = getattr(Rec, ns.name + '_' + fmt_func(r.name, version=r.version))
     upload = r.attrs.get('style') == 'upload'
     body = b'BODY'
     pos, kw = [], {}
@@ -112,7 +125,7 @@ def call(i: I8, s: S4, b: B16, f: F2, by_keyword: bool, res: int) -> bool:
         return hx.ok(False)
     route_obj, namespace, request_arg, request_binary = client.calls[0]
     key = r.name if r.version == 1 else '%s:%d' % (r.name, r.version)
-    good = route_obj is cat.ROUTES[key] and namespace == 'cat'
+    good = route_obj is cat.ROUTES[key] and namespace == ns.name
     good = good and (request_binary is body if upload else request_binary is None)
     if is_void_type(arg_dt):
         good = good and request_arg is None
